@@ -106,13 +106,19 @@ C13RejectSig(e, inv, npool) ==
 (***************************************************************************)
 C13OthersBenign(e, ps, pool) == \A r \in 1 .. Len(EvVals(e)) : r \in ps \/ pool[EvVals(e)[r]].benign
 
-\* <<f, p, v>> triples (p is 1-based here: 1 = input) witnessed by event e
-C13SinglesOf(e, pool) ==
-    { <<EvF(e), p, EvVals(e)[p]>> : p \in { q \in 1 .. Len(EvVals(e)) : C13OthersBenign(e, {q}, pool) } }
+\* <<f, p, v>> triples (p is 1-based here: 1 = input) witnessed by the well-formed events evs of trace tr: value v
+\* at position p, benign defaults everywhere else.  (One comprehension over event x position pairs: TLC builds and
+\* sorts the result once; a UNION of 100 000 small sets is an order of magnitude slower.)
+C13SinglesSeen(tr, evs, pool) ==
+    { <<EvF(tr[x[1]]), x[2], EvVals(tr[x[1]])[x[2]]>> :
+        x \in { y \in evs \X (1 .. 5) : y[2] <= Len(EvVals(tr[y[1]])) /\ C13OthersBenign(tr[y[1]], {y[2]}, pool) } }
 
-C13PairsOf(e, pool) ==
-    { <<EvF(e), pq[1], pq[2], EvVals(e)[pq[1]], EvVals(e)[pq[2]]>> :
-        pq \in { x \in (1 .. Len(EvVals(e))) \X (1 .. Len(EvVals(e))) : x[1] < x[2] /\ C13OthersBenign(e, {x[1], x[2]}, pool) } }
+\* <<f, p, q, v, w>> for p < q, benign defaults at the third position if there is one
+C13PairsSeen(tr, evs, pool) ==
+    { <<EvF(tr[x[1]]), x[2], x[3], EvVals(tr[x[1]])[x[2]], EvVals(tr[x[1]])[x[3]]>> :
+        x \in { y \in { i \in evs : EvArity(tr[i]) \in 1 .. 2 } \X (1 .. 3) \X (1 .. 3) :
+                   /\ y[2] < y[3] /\ y[3] <= Len(EvVals(tr[y[1]]))
+                   /\ C13OthersBenign(tr[y[1]], {y[2], y[3]}, pool) } }
 
 C13SingleObligations(inv, pool) ==
     UNION { { <<i, p, inv[i].req[k]>> : k \in { k \in 1 .. Len(inv[i].req) : p > 1 \/ pool[inv[i].req[k]].inp } }
